@@ -31,9 +31,19 @@ static const struct {
         { "aes-cfb-256", 0, IMB_DIR_ENCRYPT },
 };
 int
+item_ooo_count(void)
+{
+        return (int) ARRAY_SZ(ooo_tab);
+}
+int
 item_pick_ooo(struct rng *r, const struct suite **cs, const struct suite **hs, int *dir)
 {
-        unsigned k = rng_below(r, ARRAY_SZ(ooo_tab));
+        return item_ooo_by_index((int) rng_below(r, ARRAY_SZ(ooo_tab)), cs, hs, dir);
+}
+int
+item_ooo_by_index(int idx, const struct suite **cs, const struct suite **hs, int *dir)
+{
+        unsigned k = (unsigned) idx % ARRAY_SZ(ooo_tab);
         const struct suite *t = ooo_tab[k].fam == 0 ? g_cipher_suites : ooo_tab[k].fam == 1 ? g_hash_suites : g_aead_suites;
         int n = ooo_tab[k].fam == 0 ? g_n_cipher_suites : ooo_tab[k].fam == 1 ? g_n_hash_suites : g_n_aead_suites;
         *cs = *hs = NULL;
